@@ -26,7 +26,7 @@ CONSTANTS Mode, Sym, MaxLen, MaxD
 VARIABLES a, b, reg, d
 cvars == <<a, b, reg, d>>
 
-ASSUME PolyShape == /\ Poly \div Top = 1            \* degree exactly 24
+ASSUME PolyShape == /\ Poly \div Two24 = 1            \* degree exactly 24
                     /\ Poly % 2 = 1                 \* constant term 1
                     /\ Weight(Poly) % 2 = 0         \* divisible by (x+1)
 
